@@ -35,55 +35,59 @@ theorem symLoop_write (h : Ok img syms cfg) (hn : NamesFit syms) (t : List Byte)
   have z0 : (0 % 256 ≠ 0 ∧ 0 % 256 ≠ 3 ∧ 0 % 256 ≠ 4) = False := by decide
   have z3 : (3 % 256 ≠ 0 ∧ 3 % 256 ≠ 3 ∧ 3 % 256 ≠ 4) = False := by decide
   have z4 : (4 % 256 ≠ 0 ∧ 4 % 256 ≠ 3 ∧ 4 % 256 ≠ 4) = False := by decide
+  have hl : ∀ (a b c d e f : Nat) (r : List Byte),
+      ((renderSym img.bigEndian (is32 cfg) a b c d e f ++ r).length < (if is32 cfg then 16 else 24)) = False := by
+    intro a b c d e f r
+    rw [List.length_append, renderSym_length]; simp
   unfold symtabBytes
   cases hArm : isArm cfg <;> simp only [hArm, Bool.false_eq_true, if_false, if_true]
   · rw [show 3 + syms.length = syms.length + 3 by omega]
-    simp only [List.append_assoc, List.nil_append, symLoop, readSym_render, z0, z3, z4, if_false]
+    simp only [List.append_assoc, List.nil_append, symLoop, hl, readSym_render, z0, z3, z4, if_false]
     rw [key [] hstr hnames hoff]; rfl
   · rw [show 4 + syms.length = syms.length + 4 by omega]
-    simp only [List.append_assoc, List.nil_append, symLoop, readSym_render, z0, z3, z4, if_false]
+    simp only [List.append_assoc, List.nil_append, symLoop, hl, readSym_render, z0, z3, z4, if_false]
     rw [key [] hstr hnames hoff]; rfl
 
 theorem loadBytes_exact (p t : List Byte) : loadBytes (p ++ t) p.length = p := by
-  unfold loadBytes; simp
+  unfold loadBytes; exact List.take_left
 
 /-- `high_address` as read_elf computes it: `sh_addr + sh_size - 1` in 64 bits, stored in a `uint32_t` -/
 def stopOf : Nat := (img.low + img.cells.length + 18446744073709551616 - 1) % 18446744073709551616 % 4294967296
 
 /-- a section that is neither loaded nor a symbol table -/
-theorem skip_step {cap : Nat} {file : List Byte} {big is32 : Bool} {stroffset strtabOff : Nat}
+theorem skip_step {file : List Byte} {big is32 : Bool} {stroffset strtabOff : Nat}
     {nm ty fl ad off sz lk inf al es : Nat} {hs : List ElfSpec.Shdr} {st : St} {name : List Byte}
     (hname : strLoop 255 (file.drop (stroffset + nm)) = name)
     (h1 : fl / 4 % 2 = 0) (h2 : name.take 5 ≠ [46, 100, 97, 116, 97]) (h3 : name ≠ [46, 118, 101, 99, 116, 111, 114, 115])
     (h4 : ty ≠ 2) :
-    sectionLoopL cap file big is32 stroffset strtabOff (⟨nm, ty, fl, ad, off, sz, lk, inf, al, es⟩ :: hs) st =
-      sectionLoopL cap file big is32 stroffset strtabOff hs st := by
+    sectionLoopL file big is32 stroffset strtabOff (⟨nm, ty, fl, ad, off, sz, lk, inf, al, es⟩ :: hs) st =
+      sectionLoopL file big is32 stroffset strtabOff hs st := by
   have h1' : ¬ (fl / 4 % 2 = 1) := by omega
-  simp only [sectionLoopL, hname, h1', h2, h3, h4, false_or, false_and, if_false]
+  simp only [sectionLoopL, hname, h1', h2, h3, h4, false_or, if_false]
 
 /-- an executable section -/
-theorem text_step {cap : Nat} {file : List Byte} {big is32 : Bool} {stroffset strtabOff : Nat}
+theorem text_step {file : List Byte} {big is32 : Bool} {stroffset strtabOff : Nat}
     {nm ty fl ad off sz lk inf al es : Nat} {hs : List ElfSpec.Shdr} {st : St}
-    (h1 : fl / 4 % 2 = 1) (hc : ¬ sz > cap) (hst : st.start = 0xffffffff) (hsp : st.stop = 0xffffffff) :
-    sectionLoopL cap file big is32 stroffset strtabOff (⟨nm, ty, fl, ad, off, sz, lk, inf, al, es⟩ :: hs) st =
-      sectionLoopL cap file big is32 stroffset strtabOff hs
+    (h1 : fl / 4 % 2 = 1) (hst : st.start = 0xffffffff) (hsp : st.stop = 0xffffffff) :
+    sectionLoopL file big is32 stroffset strtabOff (⟨nm, ty, fl, ad, off, sz, lk, inf, al, es⟩ :: hs) st =
+      sectionLoopL file big is32 stroffset strtabOff hs
         { st with start := ad % 4294967296,
                   stop := (ad + sz + 18446744073709551616 - 1) % 18446744073709551616 % 4294967296,
                   writes := st.writes ++ writesAt ad 0 (loadBytes (file.drop off) sz) } := by
-  simp only [sectionLoopL, h1, hc, true_or, and_false, if_false, if_true, hst, hsp]
+  simp only [sectionLoopL, h1, true_or, if_true, hst, hsp]
 
 /-- a symbol table (not executable, not called .data* / .vectors) -/
-theorem symtab_step {cap : Nat} {file : List Byte} {big is32 : Bool} {stroffset strtabOff : Nat}
+theorem symtab_step {file : List Byte} {big is32 : Bool} {stroffset strtabOff : Nat}
     {nm fl ad off sz lk inf al es : Nat} {hs : List ElfSpec.Shdr} {st : St} {name : List Byte}
     (hname : strLoop 255 (file.drop (stroffset + nm)) = name)
     (h1 : fl / 4 % 2 = 0) (h2 : name.take 5 ≠ [46, 100, 97, 116, 97]) (h3 : name ≠ [46, 118, 101, 99, 116, 111, 114, 115])
-    (hc : ¬ sz > cap) :
-    sectionLoopL cap file big is32 stroffset strtabOff (⟨nm, 2, fl, ad, off, sz, lk, inf, al, es⟩ :: hs) st =
-      sectionLoopL cap file big is32 stroffset strtabOff hs
+    :
+    sectionLoopL file big is32 stroffset strtabOff (⟨nm, 2, fl, ad, off, sz, lk, inf, al, es⟩ :: hs) st =
+      sectionLoopL file big is32 stroffset strtabOff hs
         { st with syms := st.syms ++ (symLoop file big is32 strtabOff
             ((sz + (if is32 then 16 else 24) - 1) / (if is32 then 16 else 24)) (file.drop off) []).1 } := by
   have h1' : ¬ (fl / 4 % 2 = 1) := by omega
-  simp only [sectionLoopL, hname, h1', h2, h3, hc, false_or, and_false, if_false, if_true]
+  simp only [sectionLoopL, hname, h1', h2, h3, false_or, if_false, if_true]
 
 theorem name_consts :
     (str ".shstrtab").take 5 ≠ [46, 100, 97, 116, 97] ∧ str ".shstrtab" ≠ [46, 118, 101, 99, 116, 111, 114, 115] ∧
@@ -94,11 +98,10 @@ theorem name_consts :
     ([] : List Byte).take 5 ≠ [46, 100, 97, 116, 97] ∧ ([] : List Byte) ≠ [46, 118, 101, 99, 116, 111, 114, 115] := by
   decide +kernel
 
-theorem sectionLoopL_write (h : Ok img syms cfg) (hn : NamesFit syms) (cap : Nat)
-    (hcap : (ElfImpl.write img syms cfg).length ≤ cap) :
-    sectionLoopL cap (ElfImpl.write img syms cfg) img.bigEndian (is32 cfg) (shstrOff img cfg) (strtabOff img cfg)
+theorem sectionLoopL_write (h : Ok img syms cfg) (hn : NamesFit syms) :
+    sectionLoopL (ElfImpl.write img syms cfg) img.bigEndian (is32 cfg) (shstrOff img cfg) (strtabOff img cfg)
         (secsOf img syms cfg) {} =
-      { start := img.low, stop := stopOf img, writes := writesAt img.low 0 (textBytes img), syms := syms, tooBig := false } := by
+      { start := img.low, stop := stopOf img, writes := writesAt img.low 0 (textBytes img), syms := syms } := by
   obtain ⟨n0, n1, n11, n19, n27, n36, narm⟩ := names_write img syms cfg
   obtain ⟨c1, c2, c3, c4, c5, c6, c7, c8, c9, c10, c11, c12⟩ := name_consts
   obtain ⟨tt, htt⟩ := text_drop img syms cfg
@@ -108,8 +111,6 @@ theorem sectionLoopL_write (h : Ok img syms cfg) (hn : NamesFit syms) (cap : Nat
   have hylen := symtabBytes_length img syms cfg
   have ht : (textBytes img).length = img.cells.length := by simp [textBytes]
   have hlow : img.low % 4294967296 = img.low := Nat.mod_eq_of_lt (by have := h.wf.1; omega)
-  have hc1 : ¬ img.cells.length > cap := by rw [t3, ht] at t2; omega
-  have hc2 : ¬ symtabSize img syms cfg > cap := by omega
   have hload : loadBytes ((ElfImpl.write img syms cfg).drop (textOff img cfg)) img.cells.length = textBytes img := by
     rw [htt, ← ht]; exact loadBytes_exact _ _
   have hcount : (symtabSize img syms cfg + (if is32 cfg then 16 else 24) - 1) / (if is32 cfg then 16 else 24) =
@@ -123,8 +124,8 @@ theorem sectionLoopL_write (h : Ok img syms cfg) (hn : NamesFit syms) (cap : Nat
   have d0 : 0 / 4 % 2 = 0 := by decide
   have d6 : 6 / 4 % 2 = 1 := by decide
   have d48 : 48 / 4 % 2 = 0 := by decide
-  rw [skip_step (fl := 0) (ty := 0) n0 d0 c11 c12 (by decide), text_step (fl := 6) d6 hc1 rfl rfl,
-    skip_step (fl := 0) (ty := 3) n1 d0 c1 c2 (by decide), symtab_step (fl := 0) n11 d0 c3 c4 hc2,
+  rw [skip_step (fl := 0) (ty := 0) n0 d0 c11 c12 (by decide), text_step (fl := 6) d6 rfl rfl,
+    skip_step (fl := 0) (ty := 3) n1 d0 c1 c2 (by decide), symtab_step (fl := 0) n11 d0 c3 c4,
     skip_step (fl := 0) (ty := 3) n19 d0 c5 c6 (by decide), skip_step (fl := 48) (ty := 1) n27 d48 c7 c8 (by decide)]
   simp only [hsym, hload, hlow, List.nil_append]
   cases hArm : isArm cfg
